@@ -183,6 +183,9 @@ func runC11(res *hx.Result, rng *hx.Rng, tier string, outdir string) {
 					done <- struct{}{}
 					return
 				}
+				if atomic.LoadInt32(&c11Hung) >= 3 {
+					continue // enough hung runs: the rest would only wait
+				}
 				obs[k] = c11Exec(jobs[k].sc, jobs[k].f, jobs[k].hold, hang)
 			}
 		}()
@@ -193,9 +196,13 @@ func runC11(res *hx.Result, rng *hx.Rng, tier string, outdir string) {
 	cf := hx.NewCases(outdir, "C11", "From QV Require Import ConnLoss C11Run.", "mismatches ccases", res, "ccases", "ccase")
 	cf.Extra = append(cf.Extra, "Definition cfg_observed := cfg0.")
 	var maxLat time.Duration
-	aborted, ops := 0, 0
+	aborted, ops, skipped := 0, 0, 0
 	for k, j := range jobs {
 		o := obs[k]
+		if o == nil {
+			skipped++
+			continue
+		}
 		desc := fmt.Sprintf("%s fault=%s hold=%v", j.sc.String(), j.f.String(), j.hold)
 		res.Count(desc, o.pendingAtFault >= 1)
 		res.Dist("fault:" + j.f.kind)
@@ -222,7 +229,10 @@ func runC11(res *hx.Result, rng *hx.Rng, tier string, outdir string) {
 		}
 	}
 	cf.Flush()
-	res.Exhaustive = true
+	res.Exhaustive = skipped == 0
+	if skipped > 0 {
+		res.Notes = append(res.Notes, fmt.Sprintf("%d runs skipped after %d runs hit a deadline", skipped, atomic.LoadInt32(&c11Hung)))
+	}
 	res.Notes = append(res.Notes,
 		fmt.Sprintf("%d scenarios, %d runs, %d stream operations in total; fault injected at every script position, inside every Write and after every fragment of every fragmented frame", len(scs), len(jobs), ops),
 		fmt.Sprintf("wall-clock bound asserted by the oracles: every wait %v; largest latency from loss (or release of the held Close) to a call's return: %v", hang, maxLat),
